@@ -116,6 +116,17 @@ func c03ExecOp(op Sx, t0 int64) Sx {
 				unix.Close(fd)
 				r = c03Errno(err)
 			}
+		case 19: // open(O_WRONLY|O_CREAT|O_TRUNC) and a write at offset 0
+			fd, err := unix.Open(str(1), unix.O_WRONLY|unix.O_NONBLOCK|unix.O_CLOEXEC|unix.O_CREAT|unix.O_TRUNC, uint32(a[2].U64()))
+			if err != nil {
+				r = c03Errno(err)
+			} else {
+				if len(a[3].B) > 0 {
+					_, err = unix.Pwrite(fd, a[3].B, 0)
+				}
+				unix.Close(fd)
+				r = c03Errno(err)
+			}
 		case 10:
 			r = c03Errno(unix.Unlink(str(1)))
 		case 11:
